@@ -400,6 +400,9 @@ func main() {
 		}
 	}
 	e1.RunAll(r, scenarios, 0)
+	if r.Worker == "" && r.Replay == "" {
+		e1.Conformance(r)
+	}
 	r.Rule(fmt.Sprintf("histories: every sequence of length <= %d (fixed bind port: <= %d) over %d steps (path x network behaviour incl. silence, late and just-in-time replies, stray flood, TCP stall/refused/reset/EOF/blackhole, ICMP unreachable, SetAddress, discovery), step by step as environment choices; fixed-port scenarios with 2 and 3 concurrent callers (silent holders first) over all interleavings within the preemption bound. distinct = distinct history/outcome labels", maxLen, map[bool]int{true: 3, false: 2}[r.Thorough()], len(alphabet)))
 	r.Assume("virtual time: computation takes no time, so 'within the timeout' is decided with zero scheduling slack")
 	r.Assume("network behaviours are those of mc/shim/vs/net.go (refused connect fails immediately, blackholed connect blocks until the dial deadline, ICMP unreachable surfaces as a read error)")
